@@ -176,7 +176,7 @@ class Result:
             return self._expr.lineno
         if self.stmts:
             return self.stmts[-1].lineno
-        return None
+        return 0
 
     @property
     def col_offset(self):
@@ -184,7 +184,7 @@ class Result:
             return self._expr.col_offset
         if self.stmts:
             return self.stmts[-1].col_offset
-        return None
+        return 0
 
     @property
     def end_col_offset(self):
